@@ -48,7 +48,9 @@ def main():
             for n, o in job["ops"]:
                 j = str(o["inst"])
                 op = o["op"]
-                if op == "create":
+                if op == "save_state":
+                    r = c.get("/save-state")
+                elif op == "create":
                     r = c.post("/start-instance", json={"timeout": {"hours": 12}})
                     try:
                         ids[j] = json.loads(r.get_data(as_text=True))["instance_uuid"]
